@@ -35,6 +35,10 @@ CLAIMED['C09'] = ('exploration', 'deterministic simulation: seeded open/close/re
     'Seeded search over histories of LE CoC / enhanced CoC / classic channel opens from either side, closes by either side, refused opens, data+drain, concurrent opens on two links and a link disconnection fired at a seeded message boundary of an open, close or drain, followed by reconnection and more opens. After every step: ChannelManager tables equal the model of open channels on every device and link, CIDs unique per link, next open succeeds, data flows; every awaited connect/disconnect/drain finishes. Sampling, not proof.',
     'Trusted: both ends are Bumble here (peer CID allocation differing from Bumble is C07); link loss is a host-initiated disconnect by either side (the virtual controller has no supervision timeout).', 'DESIGN.md §5 C09')
 
+CLAIMED['C07'] = ('exploration', 'deterministic simulation: seeded channel parameters and write patterns against bumble or a scripted reference peer, wire-level credit ledger',
+    'Seeded search over MTU/MPS/initial credits per side, LE CoC and enhanced CoC, initiator, 1-3 channels, write-size sequences in both directions at once, latency profiles; in about half of the runs the peer is a reference LE CoC endpoint with top-down CID allocation and its own credit-return granularity. Oracle: byte streams equal in both directions, every data frame covered by a credit at the sender boundary, frame <= peer MPS, SDU <= peer MTU, credits <= 65535, transfer completes while there is wire activity (stall = 30 virtual seconds of silence), drain() returns. Sampling, not proof.',
+    'Trusted: the reference peer (bsim/rawpeer.py, written from Core Vol 3 Part A); per-run data volume <= 60 KB (quick) / 200 KB (thorough).', 'DESIGN.md §5 C07')
+
 NOT_YET = {}
 
 
